@@ -17,6 +17,7 @@ import Sb.Corr.BuilderOps
 import Sb.Corr.UtilOps
 import Sb.Corr.ConvOps
 import Sb.Corr.AllocOps
+import Sb.Corr.PolyOps
 
 open Sb.Corr
 
@@ -51,6 +52,8 @@ def dispatch (op : String) (args impl : List String) : Verdict :=
   | "bufops" => opBufops args impl
   | "rthconv" => opRthConv args impl
   | "alloc" => opAlloc args impl
+  | "polymk" => opPolymk args impl
+  | "poly" => opPoly args impl
   | "traj" => opTraj args impl
   | "yawq" => opYawq args impl
   | "facc" => opFacc args impl
